@@ -521,7 +521,11 @@ def grp_cross_config(a, b):
         return None if (a.impl_out == b.impl_out) else f"one configuration failed: '{(a.impl_out or '')[:60]}' vs '{(b.impl_out or '')[:60]}'"
     if sa["status"] != sb["status"] or sa["stats"] != sb["stats"]:
         a.tags.append("history_diverged")
-        return None
+        # the histories parted: legitimate only if an accept/reject decision fell within rounding of its threshold.  Look at
+        # the recorded attempts: the first one on which the two runs disagree must then already differ in its step size;
+        # the SAME attempt (same total alpha = 1/(gamma H), all earlier attempts in agreement) with a different error norm is
+        # a disagreement between the configurations themselves
+        return first_attempt_disagreement(a, b)
     if sa["status"] in ("NaNDetected", "InfDetected"):
         return None     # the State then holds the overflowed attempt: no accuracy is promised
     if explosive(a.meta["y"], sa["y"]) or explosive(b.meta["y"], sb["y"]):
@@ -539,6 +543,54 @@ def grp_cross_config(a, b):
         if abs(u - v) > rel * n * scale + 1e-300:
             return (f"configurations disagree beyond rounding with identical step histories: y[{i}] = {u!r} ({a.meta.get('cfg')}) vs {v!r} "
                     f"({b.meta.get('cfg')}); steps {sa['stats']['steps']}")
+    return None
+
+def att_totals(c):
+    """[(total alpha, error norm)] of the recorded Rosenbrock attempts: the separate-L/U variants report the CHANGE of alpha
+    since the previous attempt of the same step, the in-place ones the full value"""
+    m = c.meta
+    if m.get("integ") != 0 or not c.impl_out or not c.impl_out.startswith("solve "):
+        return None
+    att = parse_att(c.impl_out)
+    if not att:
+        return None
+    try:
+        hmin = decode_ros_full(m["ptoks"])["h_min"]; gamma = decode_ros_full(m["ptoks"])["gamma"]
+    except Exception:
+        return None
+    out = []; total = 0.0
+    for (alpha, err) in att:
+        if err is None or alpha != alpha or err != err or abs(alpha) == float("inf") or abs(err) == float("inf"):
+            break
+        total = alpha if m["kind"] >= 2 else total + alpha
+        out.append((total, err))
+        H = 1.0 / (total * gamma) if total > 0 else float("inf")
+        if err < 1 or H < hmin:
+            total = 0.0          # accepted: the next step starts from an un-shifted Jacobian
+    return out
+
+def first_attempt_disagreement(a, b):
+    xa, xb = att_totals(a), att_totals(b)
+    if not xa or not xb:
+        return None
+    near_threshold = False
+    for q, ((al_a, e_a), (al_b, e_b)) in enumerate(zip(xa, xb)):
+        da = abs(al_a - al_b) / max(abs(al_a), abs(al_b), 1e-300)
+        same_alpha = da <= 1e-11
+        de = abs(e_a - e_b) / max(abs(e_a), abs(e_b), 1e-300)
+        if same_alpha and de <= 1e-9:
+            near_threshold = near_threshold or abs(e_a - 1.0) < 1e-6
+            continue
+        if da > 1e-6 and not near_threshold:
+            # every earlier attempt agreed (step sizes and error norms, none near the accept threshold), so the controller
+            # asked both runs for the same H; yet the shift on the diagonal of the factored matrix differs
+            return (f"attempt #{q + 1} (the {q} earlier attempts agree in step size and error norm): the total diagonal shift applied is {al_a!r} "
+                    f"({a.meta.get('cfg')}) vs {al_b!r} ({b.meta.get('cfg')}) although both were asked for the same step size -- the matrices "
+                    f"the two configurations factor are not the same I/(gamma H) - J")
+        if same_alpha and de > 1e-5 and max(e_a, e_b) > 1e-8:
+            return (f"attempt #{q + 1} (the {q} earlier attempts agree; same step size, alpha = {al_a!r}): error norm {e_a!r} ({a.meta.get('cfg')}) vs "
+                    f"{e_b!r} ({b.meta.get('cfg')}) -- the two configurations do not solve the same linear systems")
+        return None              # they parted through the step size (a decision near its threshold) or by a rounding-sized amount
     return None
 
 def grp_trace_prefix(a, b):
@@ -1443,7 +1495,7 @@ def g_c12(r, tier, env, Ls):
         for (L, csc, kind) in cfgs:
             meta = dict(p); meta.update(L=L, csc=csc, kind=kind, cfg=f"L{L}/csc{csc}/lu{kind}")
             perm = p["perm"] if r.chance(0.5) else r.shuffle(range(p["ns"]))
-            cs.append(Case(problem_line(p, L=L, csc=csc, kind=kind, perm=perm, trace=0), meta, "solve-cfg",
+            cs.append(Case(problem_line(p, L=L, csc=csc, kind=kind, perm=perm, trace=1), meta, "solve-cfg",
                            group=(("c12", gid), grp_cross_config), tags=["L=%d" % L, "kind=%d" % kind]))
     # the whole user path: Build (state reordering on/off, species listed in any order, tolerance properties) + Solve by name
     cs += gen_bsolve_groups(r, env, Ls, 25 if tier == "quick" else 400, "c12b")
